@@ -33,7 +33,7 @@ use lightning::chain::verif_hooks_package::monitor_known_preimages;
 use lightning::events::bump_transaction::BumpTransactionEvent;
 use lightning::events::Event;
 use lightning::ln::chan_utils::shared_anchor_script_pubkey;
-use lightning::ln::channelmanager::{PaymentId, BREAKDOWN_TIMEOUT};
+use lightning::ln::channelmanager::PaymentId;
 use lightning::ln::functional_test_utils::*;
 use lightning::ln::msgs::{BaseMessageHandler, ChannelMessageHandler, MessageSendEvent};
 use lightning::ln::outbound_payment::RecipientOnionFields;
@@ -266,6 +266,12 @@ struct Cfg {
 	n_htlcs: usize,
 	mpp_parts: usize,
 	second_chan: bool,
+	/// 0 no splice; a splice negotiated before the HTLCs and never locked: 1 splice-in confirmed, 2 splice-out
+	/// confirmed (the channel is then closed by a commitment on the NEW funding, the monitor's pending
+	/// scope), 3 splice-in / 4 splice-out never confirmed (closed by a commitment on the original funding)
+	splice: u64,
+	splice_by: usize,
+	splice_sat: u64,
 }
 
 fn describe(c: &Cfg, htlcs: &[Htlc]) -> String {
@@ -283,10 +289,13 @@ fn describe(c: &Cfg, htlcs: &[Htlc]) -> String {
 		})
 		.collect();
 	format!(
-		"{{\"chan_type\":{},\"mpp_parts\":{},\"second_chan\":{},\"closer\":{},\"prev_commitment\":{},\"explicit_close\":{},\"styles\":[{},{}],\"htlcs\":[{}]}}",
+		"{{\"chan_type\":{},\"mpp_parts\":{},\"second_chan\":{},\"splice\":[{},{},{}],\"closer\":{},\"prev_commitment\":{},\"explicit_close\":{},\"styles\":[{},{}],\"htlcs\":[{}]}}",
 		c.chan_type,
 		c.mpp_parts,
 		c.second_chan,
+		c.splice,
+		c.splice_by,
+		c.splice_sat,
 		c.closer,
 		c.prev,
 		c.explicit_close,
@@ -322,6 +331,9 @@ fn scenario(seed: u64, mode_thorough: bool, trace: bool, descr: &mut String) -> 
 		n_htlcs: rng.below(n_max + 1) as usize,
 		mpp_parts: 0,
 		second_chan: false,
+		splice: 0,
+		splice_by: 0,
+		splice_sat: 0,
 	};
 	// independent stream for the features added later (keeps the older draws stable)
 	let mut rx = Rng(seed.wrapping_mul(0xA24B_AED4_963E_E407) ^ 0x5EC0D);
@@ -335,8 +347,25 @@ fn scenario(seed: u64, mode_thorough: bool, trace: bool, descr: &mut String) -> 
 	let mut user_config = test_legacy_channel_config();
 	user_config.channel_handshake_config.negotiate_anchors_zero_fee_htlc_tx = cfg.chan_type == 1;
 	user_config.channel_handshake_config.negotiate_anchor_zero_fee_commitments = cfg.chan_type == 2;
+	// ASYMMETRIC by default: the two nodes differ in the delay they impose on the other's to_local
+	// (`our_to_self_delay`, both in 144..=215 and never equal), in `our_htlc_minimum_msat` and in what
+	// their fee estimators say; a swap of holder/counterparty parameters anywhere is then visible.
+	let mut ry = Rng(seed.wrapping_mul(0x8CB9_2BA7_2F3D_8DD7) ^ 0xA5E7);
+	let d0 = 144 + ry.below(36) as u16;
+	let d1 = loop {
+		let d = 144 + ry.below(72) as u16;
+		if d != d0 {
+			break d;
+		}
+	};
+	let to_self_delay = [d0, d1];
+	let mut user_configs = [user_config.clone(), user_config];
+	for i in 0..2 {
+		user_configs[i].channel_handshake_config.our_to_self_delay = to_self_delay[i];
+		user_configs[i].channel_handshake_config.our_htlc_minimum_msat = 1 + ry.below(1000);
+	}
 	let node_chanmgrs =
-		create_node_chanmgrs(2, &node_cfgs, &[Some(user_config.clone()), Some(user_config)]);
+		create_node_chanmgrs(2, &node_cfgs, &[Some(user_configs[0].clone()), Some(user_configs[1].clone())]);
 	// never dropped: `Node::drop` asserts that nothing is pending, which would mask our verdict
 	let nodes = std::mem::ManuallyDrop::new(create_network(2, &node_cfgs, &node_chanmgrs));
 	for i in 0..2 {
@@ -346,8 +375,36 @@ fn scenario(seed: u64, mode_thorough: bool, trace: bool, descr: &mut String) -> 
 	let reserves = provide_utxo_reserves(&nodes, 24, Amount::from_sat(50_000_000));
 	let (_, _, chan_id, funding_tx) =
 		create_announced_chan_between_nodes_with_value(&nodes, 0, 1, 1_000_000, 300_000_000);
-	let funding_outpoint = OutPoint { txid: funding_tx.compute_txid(), vout: 0 };
-	let init_sat = [700_000i64, 300_000i64];
+	let mut funding_outpoint = OutPoint { txid: funding_tx.compute_txid(), vout: 0 };
+	let mut init_sat = [700_000i64, 300_000i64];
+	// ---------------------------------------------------------------- a splice that is never locked
+	// (one scenario in four; never together with the previous-commitment mode). The monitor then holds two
+	// funding scopes whose balances differ; which one the closing commitment spends is decided below.
+	let mut rz = Rng(seed.wrapping_mul(0xD1B5_4A32_D192_ED03) ^ 0x5C0FE);
+	if !cfg.prev && rz.below(4) == 0 {
+		cfg.splice = 1 + rz.below(4);
+		cfg.splice_by = rz.below(2) as usize;
+		cfg.second_chan = false;
+	}
+	let mut splice_tx: Option<Transaction> = None;
+	if cfg.splice != 0 {
+		use lightning::ln::splicing_tests::{do_initiate_splice_in, initiate_splice_out, splice_channel};
+		let a = cfg.splice_by;
+		let b = 1 - a;
+		let contribution = if cfg.splice % 2 == 1 {
+			cfg.splice_sat = 60_000 + rz.below(240_000);
+			do_initiate_splice_in(&nodes[a], &nodes[b], chan_id, Amount::from_sat(cfg.splice_sat))
+		} else {
+			cfg.splice_sat = 20_000 + rz.below(80_000);
+			let out = TxOut { value: Amount::from_sat(cfg.splice_sat), script_pubkey: nodes[a].wallet_source.get_change_script().unwrap() };
+			match initiate_splice_out(&nodes[a], &nodes[b], chan_id, vec![out]) {
+				Ok(c) => c,
+				Err(e) => return fail("harness: splice-out refused", format!("{:?}", e)),
+			}
+		};
+		let (tx, _script) = splice_channel(&nodes[a], &nodes[b], chan_id, contribution);
+		splice_tx = Some(tx);
+	}
 
 	// ---------------------------------------------------------------- pending HTLCs
 	let mut htlcs: Vec<Htlc> = Vec::new();
@@ -508,6 +565,30 @@ fn scenario(seed: u64, mode_thorough: bool, trace: bool, descr: &mut String) -> 
 	if !cfg.prev {
 		commitment_txn = get_local_commitment_txn!(nodes[c], chan_id);
 	}
+	if cfg.splice == 1 || cfg.splice == 2 {
+		// the splice confirms (a few blocks, never locked: no messages pass); the closing commitment is the
+		// closer's commitment on the NEW funding, which is the monitor's pending, not its current, scope
+		let stx = splice_tx.clone().unwrap();
+		for i in 0..2 {
+			mine_transaction(&nodes[i], &stx);
+		}
+		let k = 1 + rz.below(4) as u32;
+		for i in 0..2 {
+			connect_blocks(&nodes[i], k);
+		}
+		drain(0, &mut knows);
+		drain(1, &mut knows);
+		let new_out = stx.output.iter().position(|o| o.script_pubkey.is_p2wsh() && o.value.to_sat() > 500_000).map(|v| OutPoint { txid: stx.compute_txid(), vout: v as u32 });
+		funding_outpoint = match new_out {
+			Some(o) => o,
+			None => return fail("harness: cannot find the new funding output of the splice", format!("{:?}", stx.output)),
+		};
+		if cfg.splice == 1 {
+			init_sat[cfg.splice_by] += cfg.splice_sat as i64;
+		} else {
+			init_sat[cfg.splice_by] -= cfg.splice_sat as i64;
+		}
+	}
 	let commitment = commitment_txn[0].clone();
 	// the commitment that confirms decides (normally the planned one; the peer's if its manager
 	// force-closes first and the miner prefers that one)
@@ -531,6 +612,14 @@ fn scenario(seed: u64, mode_thorough: bool, trace: bool, descr: &mut String) -> 
 	w.add_outputs(&reserves, Some(1));
 	w.add_outputs(&funding_tx, Some(1));
 	w.confirmed.insert(funding_tx.compute_txid(), 1);
+	if let (Some(stx), true) = (splice_tx.as_ref(), cfg.splice == 1 || cfg.splice == 2) {
+		w.add_outputs(stx, Some(1));
+		w.confirmed.insert(stx.compute_txid(), 1);
+		for i in stx.input.iter() {
+			w.spent.insert(i.previous_output, (stx.compute_txid(), 1));
+		}
+	}
+	let splice_txid = splice_tx.as_ref().map(|t| t.compute_txid());
 	let funding2_outpoint = chan2.as_ref().map(|(_, t)| OutPoint { txid: t.compute_txid(), vout: 0 });
 	if let Some((_, t)) = chan2.as_ref() {
 		w.add_outputs(t, Some(1));
@@ -567,6 +656,11 @@ fn scenario(seed: u64, mode_thorough: bool, trace: bool, descr: &mut String) -> 
 	// the close itself
 	if cfg.explicit_close && !cfg.prev {
 		nodes[c].node.force_close_broadcasting_latest_txn(&chan_id, &ids[p], "closing".to_string()).unwrap();
+	} else if cfg.splice == 1 || cfg.splice == 2 {
+		// the closer's monitor is made to broadcast its latest commitment: the one on the confirmed new
+		// funding (with its HTLC transactions); all of it is picked up by the first step below
+		let mon = nodes[c].chain_monitor.chain_monitor.get_monitor(chan_id).unwrap();
+		mon.broadcast_latest_holder_commitment_txn(&nodes[c].tx_broadcaster, &nodes[c].fee_estimator, &nodes[c].logger);
 	} else {
 		w.mempool.push(MemTx { tx: commitment.clone(), owner: c, seen: w.height, ready: w.height + 1, prio: 0 });
 		w.add_outputs(&commitment, None);
@@ -824,6 +918,9 @@ fn scenario(seed: u64, mode_thorough: bool, trace: bool, descr: &mut String) -> 
 				st.broadcasts += 1;
 				if w.confirmed.contains_key(&txid) {
 					continue; // re-announcement of something already mined
+				}
+				if Some(txid) == splice_txid {
+					continue; // the splice that (in this scenario) never confirms
 				}
 				let already = w.mempool.iter().any(|m| m.tx.compute_txid() == txid);
 				w.add_outputs(&tx, None);
@@ -1258,7 +1355,8 @@ fn scenario(seed: u64, mode_thorough: bool, trace: bool, descr: &mut String) -> 
 						if n == c { "holder" } else { "counterparty" },
 						new_height,
 						mains[n].map(|m| tx.output[m.vout as usize].value.to_sat()).unwrap_or(0),
-						BREAKDOWN_TIMEOUT,
+						// the delay on the holder's own outputs is the one its PEER chose
+						to_self_delay[1 - n],
 						hs.join(","),
 						mknown[n].iter().map(|x| x.to_string()).collect::<Vec<_>>().join(",")
 					));
